@@ -142,6 +142,7 @@ namespace sim
 
     elem_nm (void) { on_event (EV_CTOR_DEFAULT); value = 0; mf = 0; reg_construct (); }
     explicit elem_nm (int v) { on_event (EV_CTOR_VALUE); value = v; mf = 0; reg_construct (); }
+    elem_nm (int a, int b) { on_event (EV_CTOR_VALUE); value = a + b; mf = 0; reg_construct (); }
 
     elem_nm (const elem_nm& o)
     {
@@ -221,6 +222,7 @@ namespace sim
 
     elem_tm (void) { on_event (EV_CTOR_DEFAULT); value = 0; mf = 0; reg_construct (); }
     explicit elem_tm (int v) { on_event (EV_CTOR_VALUE); value = v; mf = 0; reg_construct (); }
+    elem_tm (int a, int b) { on_event (EV_CTOR_VALUE); value = a + b; mf = 0; reg_construct (); }
 
     elem_tm (const elem_tm& o)
     {
@@ -285,6 +287,7 @@ namespace sim
 
     elem_mo (void) { on_event (EV_CTOR_DEFAULT); value = 0; mf = 0; reg_construct (); }
     explicit elem_mo (int v) { on_event (EV_CTOR_VALUE); value = v; mf = 0; reg_construct (); }
+    elem_mo (int a, int b) { on_event (EV_CTOR_VALUE); value = a + b; mf = 0; reg_construct (); }
     elem_mo (const elem_mo&)            = delete;
     elem_mo& operator= (const elem_mo&) = delete;
 
@@ -330,6 +333,7 @@ namespace sim
 
     elem_mn (void) { on_event (EV_CTOR_DEFAULT); value = 0; mf = 0; reg_construct (); }
     explicit elem_mn (int v) { on_event (EV_CTOR_VALUE); value = v; mf = 0; reg_construct (); }
+    elem_mn (int a, int b) { on_event (EV_CTOR_VALUE); value = a + b; mf = 0; reg_construct (); }
     elem_mn (const elem_mn&)            = delete;
     elem_mn& operator= (const elem_mn&) = delete;
 
@@ -375,6 +379,7 @@ namespace sim
 
     elem_co (void) { on_event (EV_CTOR_DEFAULT); value = 0; mf = 0; reg_construct (); }
     explicit elem_co (int v) { on_event (EV_CTOR_VALUE); value = v; mf = 0; reg_construct (); }
+    elem_co (int a, int b) { on_event (EV_CTOR_VALUE); value = a + b; mf = 0; reg_construct (); }
 
     elem_co (const elem_co& o)
     {
@@ -417,6 +422,7 @@ namespace sim
 
     elem_tc (void) = default;
     explicit elem_tc (int v) noexcept : value (v), serial (0), mf (0) { }
+    elem_tc (int a, int b) noexcept : value (a + b), serial (0), mf (0) { }
   };
 
   template <int Tag>
@@ -437,6 +443,7 @@ namespace sim
 
     elem_b1 (void) = default;
     explicit elem_b1 (int v) noexcept : value (static_cast<signed char> (v)) { }
+    elem_b1 (int a, int b) noexcept : value (static_cast<signed char> (a + b)) { }
   };
 
   inline bool operator== (const elem_b1& a, const elem_b1& b) noexcept { return a.value == b.value; }
